@@ -1,3 +1,1517 @@
 package joinsim
 
-func runC15(rm *room) {}
+import (
+	"bytes"
+	"context"
+	"crypto/ed25519"
+	"encoding/json"
+	"errors"
+	"fmt"
+	"sort"
+	"strings"
+	"time"
+
+	gmsl "github.com/matrix-org/gomatrixserverlib"
+	"github.com/matrix-org/gomatrixserverlib/fclient"
+	"github.com/matrix-org/gomatrixserverlib/spec"
+
+	"verifharness/sim"
+	"verifharness/world"
+)
+
+// c15 drives one handshake between the resident R and the asking server J.
+type c15 struct {
+	rm     *room
+	r      *sim.Run
+	t      *sim.Tape
+	ju     user // the J-side user of the handshake
+	c14    *c14
+	faults []string // parameter / signature / querier faults that fired
+	ver    *world.Verifier
+	db     *ledgerDB
+}
+
+func (c *c15) fault(kind string) {
+	c.r.Fault(kind)
+	c.faults = append(c.faults, kind)
+	c.r.Nontriv = true
+	c.r.Logf("  fault %s", kind)
+}
+
+func (c *c15) sig() string {
+	if len(c.faults) == 0 {
+		return "no_fault"
+	}
+	f := append([]string{}, c.faults...)
+	sort.Strings(f)
+	return strings.Join(f, "+")
+}
+
+func runC15(rm *room) {
+	r, t := rm.r, rm.t
+	c := &c15{rm: rm, r: r, t: t, ver: &world.Verifier{L: rm.ledger}, db: &ledgerDB{l: rm.ledger}}
+	c.ju = rm.users[2+t.Intn(2)] // j0 or j1
+	c.c14 = &c14{rm: rm, r: r, t: t, bad: map[string]gmsl.PDU{}, ver: c.ver, prov: newProvider(r)}
+	c.c14.other = rm.sibling()
+	c.prepare()
+	for id, n := range rm.nodes {
+		c.c14.prov.store[id] = n.ev
+	}
+	r.Op()
+	switch t.Weighted([]int{6, 2, 6, 6, 6, 2, 1}) {
+	case 0:
+		c.opMakeJoin()
+	case 1:
+		c.opMakeLeave()
+	case 2:
+		c.opSendJoin()
+	case 3:
+		c.opInvite()
+	case 4:
+		c.opPerformJoin()
+	case 5:
+		c.opPerformInvite()
+	case 6:
+		c.opInviteV3()
+	}
+}
+
+// prepare steers the room into a tape-chosen situation for the handshake user
+// (all by honest events: refused ones are skipped).
+func (c *c15) prepare() {
+	rm, t := c.rm, c.t
+	admin := rm.users[0]
+	st := rm.tip.after
+	switch t.Weighted([]int{5, 2, 2, 2, 3}) {
+	case 1:
+		if rm.tryAdd(admin, spec.MRoomMember, world.Str(c.ju.id), map[string]any{"membership": "ban"}) != nil {
+			c.r.Probe("scenario_user_banned")
+		}
+	case 2:
+		if rm.tryAdd(admin, spec.MRoomMember, world.Str(c.ju.id), map[string]any{"membership": "invite"}) != nil {
+			c.r.Probe("scenario_user_invited")
+		}
+	case 3:
+		if rm.tryAdd(c.ju, spec.MRoomMember, world.Str(c.ju.id), rm.joinContent(st, c.ju.id)) != nil {
+			c.r.Probe("scenario_user_joined")
+		}
+	case 4:
+		jr := rm.pickJoinRule()
+		if rm.tryAdd(admin, spec.MRoomJoinRules, world.Str(""), rm.joinRuleContent(jr)) != nil {
+			c.r.Probe("scenario_rule_" + jr)
+		}
+	}
+	c.r.Logf("handshake user %s: membership %q, join rule %s", c.ju.id, rm.membership(rm.tip.after, c.ju.id), rm.joinRule(rm.tip.after))
+}
+
+func (c *c15) third() *world.Server {
+	if len(c.rm.servers) > 2 {
+		return c.rm.servers[2]
+	}
+	return c.rm.R()
+}
+
+func (c *c15) localInRoom() bool {
+	for _, u := range c.rm.joined(c.rm.tip.after) {
+		if u.srv == c.rm.R() {
+			return true
+		}
+	}
+	return false
+}
+
+// ---- queriers of the resident --------------------------------------------------------------
+
+const (
+	qTruth = iota
+	qError
+	qNil
+	qLie
+)
+
+type querier struct {
+	c        *c15
+	jr, inv  int
+	pl, crt  int
+	info     int
+	mem      int
+	memLie   string
+	infoAns  gmsl.RestrictedRoomJoinInfo
+	fakeJR   gmsl.PDU
+	invLie   bool
+	infoArgs []string
+}
+
+func (q *querier) st() map[skey]string { return q.c.rm.tip.after }
+
+func (q *querier) stateEvent(typ, sk string) (gmsl.PDU, error) {
+	mode := qTruth
+	switch typ {
+	case spec.MRoomJoinRules:
+		mode = q.jr
+	case spec.MRoomPowerLevels:
+		mode = q.pl
+	case spec.MRoomCreate:
+		mode = q.crt
+	}
+	switch mode {
+	case qError:
+		return nil, errors.New("querier: database error")
+	case qNil:
+		return nil, nil
+	case qLie:
+		if typ == spec.MRoomJoinRules && q.fakeJR != nil {
+			return q.fakeJR, nil
+		}
+	}
+	id, ok := q.st()[skey{typ, sk}]
+	if !ok {
+		return nil, nil
+	}
+	return q.c.rm.nodes[id].ev, nil
+}
+
+func (q *querier) CurrentStateEvent(ctx context.Context, roomID spec.RoomID, typ string, sk string) (gmsl.PDU, error) {
+	ev, err := q.stateEvent(typ, sk)
+	q.c.r.Logf("  querier CurrentStateEvent(%s) -> found=%v err=%v", strings.TrimPrefix(typ, "m.room."), ev != nil, err != nil)
+	return ev, err
+}
+
+func (q *querier) invitePending(sender string) (bool, error) {
+	switch q.inv {
+	case qError:
+		return false, errors.New("querier: database error")
+	case qLie:
+		return q.invLie, nil
+	}
+	return q.c.rm.membership(q.st(), sender) == "invite", nil
+}
+
+func (q *querier) InvitePending(ctx context.Context, roomID spec.RoomID, senderID spec.SenderID) (bool, error) {
+	b, err := q.invitePending(string(senderID))
+	q.c.r.Logf("  querier InvitePending(%s) -> %v err=%v", senderID, b, err != nil)
+	return b, err
+}
+
+func (q *querier) roomInfo() (*gmsl.RestrictedRoomJoinInfo, error) {
+	switch q.info {
+	case qError:
+		return nil, errors.New("querier: database error")
+	case qNil:
+		return nil, nil
+	}
+	i := q.infoAns
+	return &i, nil
+}
+
+func (q *querier) RestrictedRoomJoinInfo(ctx context.Context, roomID spec.RoomID, senderID spec.SenderID, local spec.ServerName) (*gmsl.RestrictedRoomJoinInfo, error) {
+	q.infoArgs = append(q.infoArgs, roomID.String())
+	i, err := q.roomInfo()
+	q.c.r.Logf("  querier RestrictedRoomJoinInfo(%s) -> nil=%v err=%v", roomID.String(), i == nil, err != nil)
+	return i, err
+}
+
+func (q *querier) membership(sender string) (string, error) {
+	switch q.mem {
+	case qError:
+		return "", errors.New("querier: database error")
+	case qLie:
+		return q.memLie, nil
+	}
+	return q.c.rm.membership(q.st(), sender), nil
+}
+
+func (q *querier) CurrentMembership(ctx context.Context, roomID spec.RoomID, senderID spec.SenderID) (string, error) {
+	m, err := q.membership(string(senderID))
+	q.c.r.Logf("  querier CurrentMembership(%s) -> %q err=%v", senderID, m, err != nil)
+	return m, err
+}
+
+// newQuerier draws the scripted answers about the allow-listed room.
+func (c *c15) newQuerier() *querier {
+	rm, t := c.rm, c.t
+	q := &querier{c: c}
+	q.infoAns.LocalServerInRoom = !t.Chance(150)
+	q.infoAns.UserJoinedToRoom = !t.Chance(300)
+	mode := t.Weighted([]int{6, 1, 1})
+	for _, u := range rm.joined(rm.tip.after) {
+		if u.srv != rm.R() {
+			continue
+		}
+		if mode == 1 {
+			break // nobody
+		}
+		if mode == 2 && rm.mayInvite(rm.tip.after, u.id) {
+			continue // only users without the power to invite
+		}
+		q.infoAns.JoinedUsers = append(q.infoAns.JoinedUsers, rm.nodes[rm.tip.after[skey{spec.MRoomMember, u.id}]].ev)
+	}
+	return q
+}
+
+// ---- guards transcribed from the property text ----------------------------------------------
+
+// restrictedGuard: "a restricted join can be authorised by a local user
+// entitled to invite" (or needs no authorisation because an invite is
+// pending), judged on the queriers' answers.
+func (c *c15) restrictedGuard(q *querier, sender string) (bool, string) {
+	rm := c.rm
+	if !rm.canRestrict {
+		return true, "" // the version has no restricted joins: nothing to authorise
+	}
+	jrEv, err := q.stateEvent(spec.MRoomJoinRules, "")
+	if err != nil {
+		return false, "join rules unavailable"
+	}
+	if jrEv == nil {
+		return true, ""
+	}
+	var jr struct {
+		Rule  string `json:"join_rule"`
+		Allow []struct {
+			Type   string `json:"type"`
+			RoomID string `json:"room_id"`
+		} `json:"allow"`
+	}
+	if json.Unmarshal(jrEv.Content(), &jr) != nil {
+		return false, "join rules unreadable"
+	}
+	if jr.Rule != "restricted" && jr.Rule != "knock_restricted" {
+		return true, ""
+	}
+	pending, err := q.invitePending(sender)
+	if err != nil {
+		return false, "pending invites unavailable"
+	}
+	if pending {
+		return true, ""
+	}
+	plEv, err := q.stateEvent(spec.MRoomPowerLevels, "")
+	if err != nil || plEv == nil {
+		return false, "power levels unavailable"
+	}
+	pl, err := plEv.PowerLevels()
+	if err != nil {
+		return false, "power levels unreadable"
+	}
+	if rm.priv {
+		if ce, err := q.stateEvent(spec.MRoomCreate, ""); err != nil || ce == nil {
+			return false, "create event unavailable"
+		}
+	}
+	for _, a := range jr.Allow {
+		if a.Type != "m.room_membership" {
+			continue
+		}
+		if _, err := spec.NewRoomID(a.RoomID); err != nil {
+			continue
+		}
+		info, err := q.roomInfo()
+		if err != nil || info == nil || !info.LocalServerInRoom || !info.UserJoinedToRoom {
+			continue
+		}
+		for _, m := range info.JoinedUsers {
+			if m.Type() != spec.MRoomMember || m.StateKey() == nil {
+				continue
+			}
+			u := *m.StateKey()
+			if (rm.priv && rm.isCreator(u)) || pl.UserLevel(spec.SenderID(u)) >= pl.Invite {
+				return true, ""
+			}
+		}
+	}
+	return false, "nobody entitled to invite can authorise the join"
+}
+
+// ---- template builder of the resident --------------------------------------------------------
+
+type templateBuilder struct {
+	c      *c15
+	mode   string // "", wrong_type, nil_event, nil_state, error, state_incomplete
+	called bool
+	ev     gmsl.PDU
+	state  []gmsl.PDU
+	err    error
+}
+
+func (b *templateBuilder) build(p *gmsl.ProtoEvent) (gmsl.PDU, []gmsl.PDU, error) {
+	rm := b.c.rm
+	b.called = true
+	if b.mode == "error" {
+		b.err = spec.InternalServerError{Err: "template: database error"}
+		return nil, nil, b.err
+	}
+	if p.RoomID != rm.roomID {
+		b.err = spec.NotFound("template: unknown room")
+		return nil, nil, b.err
+	}
+	st := rm.tip.after
+	p.PrevEvents = []string{rm.tip.id}
+	p.Depth = rm.tip.ev.Depth() + 1
+	eb := rm.impl.NewEventBuilderFromProtoEvent(p)
+	if b.mode == "wrong_type" {
+		eb.Type = "m.room.topic"
+	}
+	if err := eb.AddAuthEvents(rm.provider(st)); err != nil {
+		b.err = err
+		return nil, nil, err
+	}
+	if eb.AuthEvents == nil {
+		eb.AuthEvents = []string{}
+	}
+	p.AuthEvents = eb.AuthEvents
+	k := rm.R().Current()
+	ev, err := eb.Build(timeNow(), rm.R().Name, k.ID, k.Priv)
+	if err != nil {
+		b.err = err
+		return nil, nil, err
+	}
+	var state []gmsl.PDU
+	for _, a := range ev.AuthEventIDs() {
+		if n := rm.nodes[a]; n != nil {
+			state = append(state, n.ev)
+		}
+	}
+	if state == nil {
+		state = []gmsl.PDU{}
+	}
+	switch b.mode {
+	case "nil_event":
+		ev = nil
+	case "nil_state":
+		state = nil
+	case "state_incomplete":
+		if len(state) > 1 {
+			state = state[:len(state)-1]
+		}
+	}
+	b.ev, b.state = ev, state
+	return ev, state, nil
+}
+
+func (b *templateBuilder) passesAuth() bool {
+	return b.called && b.err == nil && b.ev != nil && b.state != nil && b.ev.Type() == spec.MRoomMember && allowedBy(b.ev, b.state) == nil
+}
+
+// ---- make_join -----------------------------------------------------------------------------------
+
+func allVersions() []gmsl.RoomVersion { return world.Versions() }
+
+func (c *c15) honestMakeJoin(q *querier, tb *templateBuilder, origin spec.ServerName, uid *spec.UserID, roomID *spec.RoomID) gmsl.HandleMakeJoinInput {
+	rm := c.rm
+	return gmsl.HandleMakeJoinInput{
+		Context: context.Background(), UserID: *uid, SenderID: spec.SenderID(uid.String()), RoomID: *roomID,
+		RoomVersion: rm.ver, RemoteVersions: allVersions(), RequestOrigin: origin, LocalServerName: rm.R().Name,
+		LocalServerInRoom: c.localInRoom(), RoomQuerier: q, UserIDQuerier: uidFor, BuildEventTemplate: tb.build,
+	}
+}
+
+// callMakeJoin runs the real handler and judges it against the guards.
+func (c *c15) callMakeJoin(in gmsl.HandleMakeJoinInput, q *querier, tb *templateBuilder) (*gmsl.HandleMakeJoinResponse, error) {
+	r, rm := c.r, c.rm
+	var resp *gmsl.HandleMakeJoinResponse
+	var err error
+	if guard(r, "HandleMakeJoin", func() { resp, err = gmsl.HandleMakeJoin(in) }) {
+		return nil, errors.New("aborted")
+	}
+	accepted := err == nil && resp != nil
+	gVersion := false
+	for _, v := range in.RemoteVersions {
+		if v == in.RoomVersion {
+			gVersion = true
+		}
+	}
+	gOrigin := in.UserID.Domain() == in.RequestOrigin
+	gInRoom := in.LocalServerInRoom
+	gRestricted, whyR := c.restrictedGuard(q, string(in.SenderID))
+	gAuth := tb.passesAuth()
+	r.State(fmt.Sprintf("make_join %s accepted=%v err=%s", c.sig(), accepted, errText(err)))
+	r.Logf("  HandleMakeJoin -> accepted=%v err=%v ; guards version=%v origin=%v in_room=%v restricted=%v(%s) template_auth=%v(called=%v)", accepted, errText(err), gVersion, gOrigin, gInRoom, gRestricted, whyR, gAuth, tb.called)
+	if accepted {
+		r.Probe("make_join_accepted")
+		r.Check(gVersion, "C15", "makejoin_ignores_version_list", c.sig(), "HandleMakeJoin returned a template although the remote's version list %v lacks room version %s", in.RemoteVersions, in.RoomVersion)
+		r.Check(gOrigin, "C15", "makejoin_foreign_user", c.sig(), "HandleMakeJoin returned a template for %s requested by server %s", in.UserID.String(), in.RequestOrigin)
+		r.Check(gInRoom, "C15", "makejoin_not_resident", c.sig(), "HandleMakeJoin returned a template although the local server is not in the room")
+		r.Check(gRestricted, "C15", "makejoin_restricted_unauthorised", c.sig(), "HandleMakeJoin returned a template for a restricted join that cannot be authorised: %s", whyR)
+		r.Check(gAuth, "C15", "makejoin_template_fails_auth", c.sig(), "HandleMakeJoin returned a template whose event does not pass the auth rules (builder called=%v err=%v)", tb.called, tb.err)
+		t := resp.JoinTemplateEvent
+		var mc struct {
+			Membership string `json:"membership"`
+			Via        string `json:"join_authorised_via_users_server"`
+		}
+		_ = json.Unmarshal(t.Content, &mc)
+		ok := t.Type == spec.MRoomMember && t.StateKey != nil && *t.StateKey == string(in.SenderID) && t.SenderID == string(in.SenderID) && t.RoomID == in.RoomID.String() && mc.Membership == "join" && resp.RoomVersion == in.RoomVersion
+		r.Check(ok, "C15", "makejoin_template_shape", c.sig(), "HandleMakeJoin template is not a join of %s in %s (version %s): type=%s sender=%s room=%s membership=%s version=%s", in.SenderID, in.RoomID.String(), in.RoomVersion, t.Type, t.SenderID, t.RoomID, mc.Membership, resp.RoomVersion)
+		if mc.Via != "" {
+			r.Probe("make_join_nominates_authoriser")
+			if s := rm.serverOf(mc.Via); s == nil || s.Name != in.LocalServerName {
+				r.Probe("make_join_nominates_non_local_authoriser")
+			}
+		}
+		return resp, err
+	}
+	r.Probe("make_join_refused")
+	if gVersion && gOrigin && gInRoom && gRestricted && len(c.faults) == 0 && (gAuth || !tb.called) {
+		r.Violate("C15", "makejoin_spurious_refusal", c.sig(), "HandleMakeJoin refused although every guard holds and no fault was injected: %v", err)
+	}
+	return resp, err
+}
+
+func errText(err error) string {
+	if err == nil {
+		return "<nil>"
+	}
+	var me spec.MatrixError
+	if errors.As(err, &me) {
+		return "MatrixError:" + string(me.ErrCode)
+	}
+	s := err.Error()
+	if len(s) > 80 {
+		s = s[:80]
+	}
+	return s
+}
+
+func (c *c15) applyQuerierFault(q *querier, k string) {
+	switch k {
+	case "querier_joinrules_error":
+		q.jr = qError
+	case "querier_joinrules_lie_restricted":
+		ev, err := c.rm.buildWith(c.rm.users[0], []string{c.rm.tip.id}, c.rm.tip.ev.Depth()+1, c.rm.pdus(c.rm.tip.after), spec.MRoomJoinRules, world.Str(""), c.rm.joinRuleContent("restricted"))
+		if err == nil {
+			q.jr, q.fakeJR = qLie, ev
+		}
+	case "querier_invite_error":
+		q.inv = qError
+	case "querier_invite_lie":
+		q.inv, q.invLie = qLie, c.t.Bool()
+	case "querier_pl_missing":
+		q.pl = qNil
+	case "querier_pl_error":
+		q.pl = qError
+	case "querier_create_missing":
+		q.crt = qNil
+	case "querier_info_error":
+		q.info = qError
+	case "querier_info_nil":
+		q.info = qNil
+	}
+}
+
+func (c *c15) opMakeJoin() {
+	r, t, rm := c.r, c.t, c.rm
+	q := c.newQuerier()
+	tb := &templateBuilder{c: c}
+	uid, _ := spec.NewUserID(c.ju.id, true)
+	rid, _ := spec.NewRoomID(rm.roomID)
+	in := c.honestMakeJoin(q, tb, rm.J().Name, uid, rid)
+	r.Logf("op make_join %s -> %s", c.ju.id, rm.R().Name)
+	kinds := []string{"versions_lack_room_version", "origin_mismatch", "user_of_other_server", "server_not_in_room", "unknown_room",
+		"querier_joinrules_error", "querier_joinrules_lie_restricted", "querier_invite_error", "querier_invite_lie", "querier_pl_missing", "querier_pl_error", "querier_create_missing", "querier_info_error", "querier_info_nil",
+		"template_wrong_type", "template_nil_event", "template_nil_state", "template_error", "template_state_incomplete"}
+	nf := t.Weighted([]int{4, 4, 2, 1})
+	for i := 0; i < nf; i++ {
+		k := kinds[t.Weighted([]int{5, 4, 2, 3, 2, 1, 1, 1, 1, 1, 1, 1, 1, 1, 1, 1, 1, 1, 2})]
+		switch {
+		case k == "versions_lack_room_version":
+			var vs []gmsl.RoomVersion
+			if !t.Chance(200) {
+				for _, v := range allVersions() {
+					if v != rm.ver {
+						vs = append(vs, v)
+					}
+				}
+				vs = sim.Shuffle(t, vs)[:t.Range(0, len(vs))]
+			}
+			in.RemoteVersions = vs
+		case k == "origin_mismatch":
+			in.RequestOrigin = c.third().Name
+		case k == "user_of_other_server":
+			other := rm.users[0]
+			if len(rm.servers) > 2 && t.Bool() {
+				other = rm.users[len(rm.users)-1]
+			}
+			ou, _ := spec.NewUserID(other.id, true)
+			in.UserID, in.SenderID = *ou, spec.SenderID(other.id)
+		case k == "server_not_in_room":
+			in.LocalServerInRoom = false
+		case k == "unknown_room":
+			orid, _ := spec.NewRoomID("!nowhere:" + string(rm.R().Name))
+			if c.c14.other != nil && t.Bool() {
+				orid, _ = spec.NewRoomID(c.c14.other.roomID)
+			}
+			in.RoomID = *orid
+		case strings.HasPrefix(k, "querier_"):
+			c.applyQuerierFault(q, k)
+		case strings.HasPrefix(k, "template_"):
+			tb.mode = strings.TrimPrefix(k, "template_")
+		}
+		c.fault(k)
+	}
+	c.callMakeJoin(in, q, tb)
+}
+
+// ---- make_leave ----------------------------------------------------------------------------------
+
+func (c *c15) opMakeLeave() {
+	r, t, rm := c.r, c.t, c.rm
+	tb := &templateBuilder{c: c}
+	uid, _ := spec.NewUserID(c.ju.id, true)
+	rid, _ := spec.NewRoomID(rm.roomID)
+	in := gmsl.HandleMakeLeaveInput{UserID: *uid, SenderID: spec.SenderID(c.ju.id), RoomID: *rid, RoomVersion: rm.ver, RequestOrigin: rm.J().Name,
+		LocalServerName: rm.R().Name, LocalServerInRoom: c.localInRoom(), UserIDQuerier: uidFor, BuildEventTemplate: tb.build}
+	r.Logf("op make_leave %s -> %s", c.ju.id, rm.R().Name)
+	nf := t.Weighted([]int{4, 4, 2})
+	for i := 0; i < nf; i++ {
+		k := []string{"origin_mismatch", "server_not_in_room", "template_wrong_type", "template_nil_event", "template_nil_state", "template_error", "user_of_other_server"}[t.Weighted([]int{4, 3, 1, 1, 1, 1, 2})]
+		switch {
+		case k == "origin_mismatch":
+			in.RequestOrigin = c.third().Name
+		case k == "server_not_in_room":
+			in.LocalServerInRoom = false
+		case k == "user_of_other_server":
+			ou, _ := spec.NewUserID(rm.users[0].id, true)
+			in.UserID, in.SenderID = *ou, spec.SenderID(rm.users[0].id)
+		default:
+			tb.mode = strings.TrimPrefix(k, "template_")
+		}
+		c.fault(k)
+	}
+	var resp *gmsl.HandleMakeLeaveResponse
+	var err error
+	if guard(r, "HandleMakeLeave", func() { resp, err = gmsl.HandleMakeLeave(in) }) {
+		return
+	}
+	accepted := err == nil && resp != nil
+	gOrigin := in.UserID.Domain() == in.RequestOrigin
+	gAuth := tb.passesAuth()
+	r.State(fmt.Sprintf("make_leave %s accepted=%v err=%s", c.sig(), accepted, errText(err)))
+	r.Logf("  HandleMakeLeave -> accepted=%v err=%v ; guards origin=%v in_room=%v template_auth=%v", accepted, errText(err), gOrigin, in.LocalServerInRoom, gAuth)
+	if accepted {
+		r.Probe("make_leave_accepted")
+		r.Check(gOrigin, "C15", "makeleave_foreign_user", c.sig(), "HandleMakeLeave returned a template for %s requested by server %s", in.UserID.String(), in.RequestOrigin)
+		r.Check(in.LocalServerInRoom, "C15", "makeleave_not_resident", c.sig(), "HandleMakeLeave returned a template although the local server is not in the room")
+		r.Check(gAuth, "C15", "makeleave_template_fails_auth", c.sig(), "HandleMakeLeave returned a template whose event does not pass the auth rules")
+		tp := resp.LeaveTemplateEvent
+		var mc struct {
+			Membership string `json:"membership"`
+		}
+		_ = json.Unmarshal(tp.Content, &mc)
+		r.Check(tp.Type == spec.MRoomMember && tp.StateKey != nil && *tp.StateKey == string(in.SenderID) && tp.RoomID == in.RoomID.String() && mc.Membership == "leave", "C15", "makeleave_template_shape", c.sig(), "HandleMakeLeave template is not a leave of %s", in.SenderID)
+		return
+	}
+	r.Probe("make_leave_refused")
+	if gOrigin && in.LocalServerInRoom && len(c.faults) == 0 && (gAuth || !tb.called) {
+		r.Violate("C15", "makeleave_spurious_refusal", c.sig(), "HandleMakeLeave refused although every guard holds and no fault was injected: %v", err)
+	}
+}
+
+// ---- signature helpers --------------------------------------------------------------------------
+
+// validlySignedBy: ground-truth check (ledger keys, strict validity at the
+// event's timestamp) that ev carries a signature of server over its signed
+// projection.
+func (c *c15) validlySignedBy(ev gmsl.PDU, server spec.ServerName) bool {
+	red, err := c.rm.impl.RedactEventJSON(ev.JSON())
+	if err != nil {
+		return false
+	}
+	s := c.rm.ledger.Servers[server]
+	if s == nil {
+		return false
+	}
+	ts := ev.OriginServerTS()
+	for keyID := range getSigs(ev.JSON())[string(server)] {
+		k := s.KeyByID(gmsl.KeyID(keyID))
+		if k == nil {
+			continue
+		}
+		if !k.Current() && ts >= spec.AsTimestamp(k.ExpiredAt) {
+			continue
+		}
+		if k.Current() && ts.Time().After(timeNow().Add(s.ValidFor)) {
+			continue
+		}
+		if gmsl.VerifyJSON(string(server), gmsl.KeyID(keyID), k.Pub, red) == nil {
+			return true
+		}
+	}
+	return false
+}
+
+func sameProjection(a, b []byte) bool {
+	var ma, mb map[string]json.RawMessage
+	if json.Unmarshal(a, &ma) != nil || json.Unmarshal(b, &mb) != nil {
+		return false
+	}
+	for _, m := range []map[string]json.RawMessage{ma, mb} {
+		delete(m, "signatures")
+		delete(m, "unsigned")
+	}
+	ca, _ := json.Marshal(ma)
+	cb, _ := json.Marshal(mb)
+	xa, e1 := gmsl.CanonicalJSON(ca)
+	xb, e2 := gmsl.CanonicalJSON(cb)
+	return e1 == nil && e2 == nil && bytes.Equal(xa, xb)
+}
+
+// keepsSignatures reports whether every signature of before is still in after.
+func keepsSignatures(before, after []byte, local spec.ServerName) bool {
+	sa := getSigs(after)
+	for srv, ks := range getSigs(before) {
+		if srv == string(local) {
+			continue // the local server may replace what was filed under its own name
+		}
+		for k, v := range ks {
+			if sa[srv][k] != v {
+				return false
+			}
+		}
+	}
+	return true
+}
+
+// pickVerifier returns the JSONVerifier the handler is given: the ledger
+// verifier or a real KeyRing over a ledger-backed key database.
+func (c *c15) pickVerifier() (gmsl.JSONVerifier, bool) {
+	if c.t.Chance(400) {
+		return &gmsl.KeyRing{KeyDatabase: c.db}, true
+	}
+	return c.ver, false
+}
+
+// ---- send_join -----------------------------------------------------------------------------------
+
+type joinShape struct {
+	typ      string
+	sender   user
+	stateKey *string
+	roomID   string
+	content  map[string]any
+	signer   *world.Server
+	key      *world.Key
+	ts       time.Time
+	sigFault string
+}
+
+func (c *c15) buildShape(s joinShape, authFrom []gmsl.PDU) (gmsl.PDU, error) {
+	rm := c.rm
+	p := world.Proto{RoomID: s.roomID, Sender: s.sender.id, Type: s.typ, StateKey: s.stateKey, Content: s.content, Prev: []string{rm.tip.id}, Depth: rm.tip.ev.Depth() + 1, AuthFrom: provOf(authFrom)}
+	return world.Build(rm.impl, p, s.ts, s.signer.Name, s.key)
+}
+
+func (c *c15) opSendJoin() {
+	r, t, rm := c.r, c.t, c.rm
+	q := c.newQuerier()
+	st := rm.tip.after
+	sh := joinShape{typ: spec.MRoomMember, sender: c.ju, stateKey: world.Str(c.ju.id), roomID: rm.roomID, content: rm.joinContent(st, c.ju.id), signer: rm.J(), key: rm.J().Current(), ts: timeNow()}
+	origin := rm.J().Name
+	r.Logf("op send_join %s -> %s", c.ju.id, rm.R().Name)
+	pathRoom, pathEvent := "", ""
+	useKeyRing := false
+	var verifier gmsl.JSONVerifier
+	verifier, useKeyRing = c.pickVerifier()
+	kinds := []string{"path_room_mismatch", "path_event_mismatch", "membership_not_join", "state_key_other_user", "state_key_empty", "not_a_state_event", "sender_of_other_server", "origin_mismatch",
+		"event_other_room", "sig_corrupt", "sig_strip", "sig_wrong_key", "sig_expired_key", "sig_future_ts", "querier_says_banned", "querier_membership_error", "authorised_via_remote_user", "authorised_via_invalid", "wrong_type", "verifier_error"}
+	nf := t.Weighted([]int{4, 4, 2, 1})
+	sigFaulted := false
+	for i := 0; i < nf; i++ {
+		k := kinds[t.Weighted([]int{3, 3, 3, 3, 1, 1, 3, 3, 2, 2, 2, 2, 2, 1, 3, 1, 3, 1, 2, 1})]
+		switch k {
+		case "path_room_mismatch":
+			pathRoom = "!elsewhere:" + string(rm.R().Name)
+			if c.c14.other != nil {
+				pathRoom = c.c14.other.roomID
+			}
+		case "path_event_mismatch":
+			pathEvent = world.FakeEventID(t, rm.impl, rm.J().Name)
+		case "membership_not_join":
+			sh.content = map[string]any{"membership": sim.Pick(t, []string{"leave", "invite", "knock", "ban"})}
+			if t.Chance(150) {
+				sh.content = map[string]any{"reason": "no membership"}
+			}
+		case "state_key_other_user":
+			sh.stateKey = world.Str(rm.users[3-(t.Intn(2))].id)
+			if *sh.stateKey == sh.sender.id {
+				sh.stateKey = world.Str(rm.users[0].id)
+			}
+		case "state_key_empty":
+			sh.stateKey = world.Str("")
+		case "not_a_state_event":
+			sh.stateKey = nil
+		case "sender_of_other_server":
+			// somebody else's user, signed by that user's server, submitted by J
+			o := rm.users[0]
+			if len(rm.servers) > 2 {
+				o = rm.users[len(rm.users)-1]
+			}
+			sh.sender, sh.stateKey, sh.signer, sh.key = o, world.Str(o.id), o.srv, o.srv.Current()
+		case "origin_mismatch":
+			origin = c.third().Name
+		case "event_other_room":
+			if c.c14.other == nil {
+				continue
+			}
+			sh.roomID = c.c14.other.roomID
+		case "sig_corrupt", "sig_strip", "sig_wrong_key":
+			if sigFaulted {
+				continue
+			}
+			sh.sigFault, sigFaulted = k, true
+		case "sig_expired_key":
+			if sigFaulted {
+				continue
+			}
+			// J rotated its key; the join is signed with the old key but dated after the rotation
+			old := rm.J().Current()
+			rm.J().Rotate(t, timeNow())
+			time.Sleep(time.Duration(t.Range(1, 3600)) * time.Second)
+			sh.key, sh.ts, sigFaulted = old, timeNow(), true
+			r.Fault("key_rotate")
+			r.Fault("clock_jump")
+		case "sig_future_ts":
+			if sigFaulted || !useKeyRing {
+				continue
+			}
+			sh.ts, sigFaulted = timeNow().Add(time.Duration(t.Range(2, 30))*24*time.Hour), true
+		case "querier_says_banned":
+			q.mem, q.memLie = qLie, "ban"
+		case "querier_membership_error":
+			q.mem = qError
+		case "authorised_via_remote_user":
+			sh.content = map[string]any{"membership": "join", "join_authorised_via_users_server": sim.Pick(t, []string{rm.users[3].id, "@nobody:" + string(c.third().Name), rm.users[2].id})}
+			if s := rm.serverOf(sh.content["join_authorised_via_users_server"].(string)); s == rm.R() {
+				sh.content["join_authorised_via_users_server"] = rm.users[2].id
+			}
+		case "authorised_via_invalid":
+			sh.content = map[string]any{"membership": "join", "join_authorised_via_users_server": sim.Pick(t, []string{"not a user id", "@:", "r0"})}
+		case "wrong_type":
+			sh.typ = sim.Pick(t, []string{"m.room.topic", "org.example.thing", "m.room.join_rules"})
+		case "verifier_error":
+			c.ver.Fail = errors.New("key ring: database unavailable")
+			c.db.fail = true
+		}
+		c.fault(k)
+	}
+	authFrom := rm.pdus(st)
+	if sh.roomID != rm.roomID && c.c14.other != nil {
+		authFrom = c.c14.other.pdus(c.c14.other.tip.after)
+	}
+	ev, err := c.buildShape(sh, authFrom)
+	if err != nil {
+		r.Probe("send_join_build_refused")
+		r.Logf("  join event could not be built: %v", err)
+		return
+	}
+	raw := append([]byte{}, ev.JSON()...)
+	if sh.sigFault != "" {
+		raw = rm.sigFault(ev, sh.sigFault, string(sh.signer.Name))
+	}
+	submitted := append([]byte{}, raw...)
+	if pathRoom == "" {
+		pathRoom = ev.RoomID().String()
+	}
+	if pathEvent == "" {
+		pathEvent = ev.EventID()
+	}
+	rid, err := spec.NewRoomID(pathRoom)
+	if err != nil {
+		r.Probe("send_join_bad_path_room")
+		return
+	}
+	k := rm.R().Current()
+	in := gmsl.HandleSendJoinInput{Context: context.Background(), RoomID: *rid, EventID: pathEvent, JoinEvent: raw, RoomVersion: rm.ver, RequestOrigin: origin,
+		LocalServerName: rm.R().Name, KeyID: k.ID, PrivateKey: k.Priv, Verifier: verifier, MembershipQuerier: q, UserIDQuerier: uidFor,
+		StoreSenderIDFromPublicID: func(ctx context.Context, senderID spec.SenderID, userID string, id spec.RoomID) error { return nil }}
+	c.callSendJoin(in, ev, submitted, q, sigFaulted)
+}
+
+// callSendJoin runs the real handler and judges it. ev is the event as built
+// (before any signature fault), submitted the bytes handed over.
+func (c *c15) callSendJoin(in gmsl.HandleSendJoinInput, ev gmsl.PDU, submitted []byte, q *querier, sigFaulted bool) (*gmsl.HandleSendJoinResponse, error) {
+	r, rm := c.r, c.rm
+	var resp *gmsl.HandleSendJoinResponse
+	var err error
+	if guard(r, "HandleSendJoin", func() { resp, err = gmsl.HandleSendJoin(in) }) {
+		return nil, errors.New("aborted")
+	}
+	accepted := err == nil && resp != nil && resp.JoinEvent != nil
+	mem, _ := ev.Membership()
+	gJoin := ev.Type() == spec.MRoomMember && ev.StateKey() != nil && mem == "join"
+	gSelf := ev.StateKey() != nil && *ev.StateKey() != "" && *ev.StateKey() == string(ev.SenderID())
+	gRoom := ev.RoomID().String() == in.RoomID.String()
+	gEventID := ev.EventID() == in.EventID
+	sender, uerr := spec.NewUserID(string(ev.SenderID()), true)
+	gOrigin := uerr == nil && sender.Domain() == in.RequestOrigin
+	sub := rm.parse(submitted)
+	gSigned := !sigFaulted && sub != nil && c.validlySignedBy(sub, in.RequestOrigin) && c.ver.Fail == nil
+	m, merr := q.membership(string(ev.SenderID()))
+	gNotBanned := merr == nil && m != "ban"
+	var mc struct {
+		Via string `json:"join_authorised_via_users_server"`
+	}
+	_ = json.Unmarshal(ev.Content(), &mc)
+	gVia := true
+	if mc.Via != "" {
+		u, e := spec.NewUserID(mc.Via, true)
+		gVia = e == nil && u.Domain() == in.LocalServerName
+	}
+	r.State(fmt.Sprintf("send_join %s accepted=%v err=%s", c.sig(), accepted, errText(err)))
+	r.Logf("  HandleSendJoin -> accepted=%v err=%v ; guards join=%v self=%v room=%v event_id=%v origin=%v signed=%v not_banned=%v via_local=%v", accepted, errText(err), gJoin, gSelf, gRoom, gEventID, gOrigin, gSigned, gNotBanned, gVia)
+	if accepted {
+		r.Probe("send_join_accepted")
+		if ev.Type() != spec.MRoomMember {
+			r.Violate("C15", "sendjoin_accepts_non_member_event", "type:"+c.sig(), "HandleSendJoin accepted and counter-signed an event of type %s (content.membership=%q)", ev.Type(), mem)
+		}
+		r.Check(gJoin, "C15", "sendjoin_accepts_non_join", c.sig(), "HandleSendJoin accepted an event that is not a join (type %s membership %q)", ev.Type(), mem)
+		r.Check(gSelf, "C15", "sendjoin_sender_not_state_key", c.sig(), "HandleSendJoin accepted a join whose sender %s differs from its state key", ev.SenderID())
+		r.Check(gRoom, "C15", "sendjoin_room_mismatch", c.sig(), "HandleSendJoin accepted an event of room %s for request room %s", ev.RoomID().String(), in.RoomID.String())
+		r.Check(gEventID, "C15", "sendjoin_event_id_mismatch", c.sig(), "HandleSendJoin accepted event %s for request event ID %s", ev.EventID(), in.EventID)
+		r.Check(gOrigin, "C15", "sendjoin_foreign_sender", c.sig(), "HandleSendJoin accepted a join of %s submitted by server %s", ev.SenderID(), in.RequestOrigin)
+		r.Check(gSigned, "C15", "sendjoin_unsigned", c.sig(), "HandleSendJoin accepted a join that the requesting server %s has not validly signed", in.RequestOrigin)
+		r.Check(gNotBanned, "C15", "sendjoin_banned", c.sig(), "HandleSendJoin accepted a join of a user whose membership is %q (err=%v)", m, merr)
+		r.Check(gVia, "C15", "sendjoin_remote_authoriser", c.sig(), "HandleSendJoin accepted a join authorised via %q which is not a user of %s", mc.Via, in.LocalServerName)
+		c.checkCounterSigned("sendjoin", resp.JoinEvent, submitted, in.LocalServerName)
+		if resp.AlreadyJoined {
+			r.Probe("send_join_already_joined")
+		}
+		return resp, err
+	}
+	r.Probe("send_join_refused")
+	if gJoin && gSelf && gRoom && gEventID && gOrigin && gSigned && gNotBanned && gVia && len(c.faults) == 0 {
+		r.Violate("C15", "sendjoin_spurious_refusal", c.sig(), "HandleSendJoin refused although every guard holds and no fault was injected: %v", err)
+	}
+	return resp, err
+}
+
+// checkCounterSigned: what a handler returns carries a valid signature of the
+// local server over the unmodified event.
+func (c *c15) checkCounterSigned(op string, got gmsl.PDU, submitted []byte, local spec.ServerName) {
+	r := c.r
+	if p := c.rm.parse(got.JSON()); p != nil && strings.Join(p.AuthEventIDs(), ",") != strings.Join(got.AuthEventIDs(), ",") {
+		r.Probe("returned_pdu_accessors_disagree_with_its_json")
+	}
+	r.Check(c.validlySignedBy(got, local), "C15", op+"_not_countersigned", c.sig(), "%s: the returned event carries no valid signature of the local server %s", op, local)
+	r.Check(sameProjection(got.JSON(), submitted), "C15", op+"_event_modified", c.sig(), "%s: the returned event differs from the submitted one outside signatures/unsigned", op)
+	r.Check(keepsSignatures(submitted, got.JSON(), local), "C15", op+"_signatures_lost", c.sig(), "%s: the returned event lost a signature the submitted event carried", op)
+}
+
+// ---- invite ------------------------------------------------------------------------------------------
+
+type inviteQ struct {
+	c               *c15
+	known           bool
+	knownErr        bool
+	mem             string
+	memErr          bool
+	stateErr        bool
+	stateEmpty      bool
+	membershipCalls int
+}
+
+func (q *inviteQ) IsKnownRoom(ctx context.Context, roomID spec.RoomID) (bool, error) {
+	if q.knownErr {
+		return false, errors.New("querier: database error")
+	}
+	return q.known, nil
+}
+
+func (q *inviteQ) CurrentMembership(ctx context.Context, roomID spec.RoomID, senderID spec.SenderID) (string, error) {
+	q.membershipCalls++
+	if q.memErr {
+		return "", errors.New("querier: database error")
+	}
+	return q.mem, nil
+}
+
+func (q *inviteQ) GetAuthEvents(ctx context.Context, ev gmsl.PDU) (gmsl.AuthEventProvider, error) {
+	return q.c.rm.provider(q.c.rm.tip.after), nil
+}
+
+func (q *inviteQ) GetState(ctx context.Context, roomID spec.RoomID, wanted []gmsl.StateKeyTuple) ([]gmsl.PDU, error) {
+	if q.stateErr {
+		return nil, errors.New("querier: database error")
+	}
+	if q.stateEmpty {
+		return nil, nil
+	}
+	var out []gmsl.PDU
+	for _, w := range wanted {
+		if id, ok := q.c.rm.tip.after[skey{w.EventType, w.StateKey}]; ok {
+			out = append(out, q.c.rm.nodes[id].ev)
+		}
+	}
+	return out, nil
+}
+
+func (c *c15) strippedState() []gmsl.InviteStrippedState {
+	var out []gmsl.InviteStrippedState
+	for _, k := range []skey{{spec.MRoomCreate, ""}, {spec.MRoomJoinRules, ""}} {
+		if id, ok := c.rm.tip.after[k]; ok {
+			out = append(out, gmsl.NewInviteStrippedState(c.rm.nodes[id].ev))
+		}
+	}
+	return out
+}
+
+func (c *c15) opInvite() {
+	r, t, rm := c.r, c.t, c.rm
+	inviter := rm.users[0]
+	for _, u := range rm.joined(rm.tip.after) {
+		if u.srv == rm.R() && rm.mayInvite(rm.tip.after, u.id) {
+			inviter = u
+			break
+		}
+	}
+	target := c.ju
+	sh := joinShape{typ: spec.MRoomMember, sender: inviter, stateKey: world.Str(target.id), roomID: rm.roomID, content: map[string]any{"membership": "invite"}, signer: rm.R(), key: rm.R().Current(), ts: timeNow()}
+	q := &inviteQ{c: c, known: t.Chance(400), mem: rm.membership(rm.tip.after, target.id)}
+	if q.mem == "join" {
+		q.known = true
+	}
+	verifier, useKeyRing := c.pickVerifier()
+	pathRoom := ""
+	version := rm.ver
+	r.Logf("op invite %s by %s (J knows room=%v, membership %q)", target.id, inviter.id, q.known, q.mem)
+	kinds := []string{"membership_not_invite", "wrong_type", "state_key_other_user", "path_room_mismatch", "event_other_room", "sig_corrupt", "sig_strip", "sig_wrong_key", "sig_expired_key", "sig_future_ts",
+		"already_joined_known_room", "already_joined_unknown_room", "querier_known_error", "querier_membership_error", "querier_state_error", "unsupported_version", "not_a_state_event", "verifier_error", "known_room_no_stripped_state"}
+	nf := t.Weighted([]int{4, 4, 2, 1})
+	sigFaulted := false
+	noStripped := false
+	for i := 0; i < nf; i++ {
+		k := kinds[t.Weighted([]int{5, 3, 3, 3, 2, 2, 2, 2, 2, 1, 3, 1, 1, 1, 1, 1, 1, 1, 1})]
+		switch k {
+		case "membership_not_invite":
+			sh.content = map[string]any{"membership": sim.Pick(t, []string{"join", "leave", "ban", "knock"})}
+			if t.Chance(150) {
+				sh.content = map[string]any{"reason": "x"}
+			}
+		case "wrong_type":
+			sh.typ = sim.Pick(t, []string{"m.room.topic", "m.room.power_levels", "org.example.thing"})
+			if sh.typ == "m.room.power_levels" {
+				sh.stateKey = world.Str("")
+				sh.content = map[string]any{"users": map[string]any{inviter.id: 100}}
+			}
+		case "state_key_other_user":
+			o := rm.users[5-indexOf(rm.users, target)] // the other J user
+			sh.stateKey = world.Str(o.id)
+		case "not_a_state_event":
+			sh.stateKey, sh.typ, sh.content = nil, "m.room.message", map[string]any{"body": "x", "msgtype": "m.text"}
+		case "path_room_mismatch":
+			pathRoom = "!elsewhere:" + string(rm.R().Name)
+			if c.c14.other != nil {
+				pathRoom = c.c14.other.roomID
+			}
+		case "event_other_room":
+			if c.c14.other == nil {
+				continue
+			}
+			sh.roomID = c.c14.other.roomID
+		case "sig_corrupt", "sig_strip", "sig_wrong_key":
+			if sigFaulted {
+				continue
+			}
+			sh.sigFault, sigFaulted = k, true
+		case "sig_expired_key":
+			if sigFaulted {
+				continue
+			}
+			old := rm.R().Current()
+			rm.R().Rotate(t, timeNow())
+			time.Sleep(time.Duration(t.Range(1, 3600)) * time.Second)
+			sh.key, sh.ts, sigFaulted = old, timeNow(), true
+			r.Fault("key_rotate")
+			r.Fault("clock_jump")
+		case "sig_future_ts":
+			if sigFaulted || !useKeyRing {
+				continue
+			}
+			sh.ts, sigFaulted = timeNow().Add(time.Duration(t.Range(2, 30))*24*time.Hour), true
+		case "already_joined_known_room":
+			q.known, q.mem = true, "join"
+		case "already_joined_unknown_room":
+			q.known, q.mem = false, "join"
+		case "querier_known_error":
+			q.knownErr = true
+		case "querier_membership_error":
+			q.memErr = true
+		case "querier_state_error":
+			q.stateErr, noStripped = true, true
+		case "known_room_no_stripped_state":
+			q.known, q.stateEmpty, noStripped = true, true, true
+		case "unsupported_version":
+			version = "99.unknown"
+		case "verifier_error":
+			c.ver.Fail = errors.New("key ring: database unavailable")
+			c.db.fail = true
+		}
+		c.fault(k)
+	}
+	authFrom := rm.pdus(rm.tip.after)
+	if sh.roomID != rm.roomID && c.c14.other != nil {
+		authFrom = c.c14.other.pdus(c.c14.other.tip.after)
+	}
+	ev, err := c.buildShape(sh, authFrom)
+	if err != nil {
+		r.Probe("invite_build_refused")
+		r.Logf("  invite event could not be built: %v", err)
+		return
+	}
+	raw := append([]byte{}, ev.JSON()...)
+	if sh.sigFault != "" {
+		raw = rm.sigFault(ev, sh.sigFault, string(sh.signer.Name))
+	}
+	if pathRoom == "" {
+		pathRoom = ev.RoomID().String()
+	}
+	rid, err := spec.NewRoomID(pathRoom)
+	if err != nil {
+		return
+	}
+	var stripped []gmsl.InviteStrippedState
+	if !noStripped && t.Chance(700) {
+		stripped = c.strippedState()
+	}
+	c.callInvite(raw, ev, *rid, version, target, q, verifier, stripped, sigFaulted)
+}
+
+func indexOf(us []user, u user) int {
+	for i := range us {
+		if us[i].id == u.id {
+			return i
+		}
+	}
+	return 0
+}
+
+// callInvite hands the invite to the real HandleInvite of J and judges it.
+func (c *c15) callInvite(raw []byte, built gmsl.PDU, roomID spec.RoomID, version gmsl.RoomVersion, target user, q *inviteQ, verifier gmsl.JSONVerifier, stripped []gmsl.InviteStrippedState, sigFaulted bool) (gmsl.PDU, error) {
+	r, rm := c.r, c.rm
+	ev, perr := rm.impl.NewEventFromUntrustedJSON(raw)
+	if perr != nil {
+		r.Probe("invite_unparsable")
+		r.Logf("  invite does not parse: %v", perr)
+		return nil, perr
+	}
+	submitted := append([]byte{}, ev.JSON()...)
+	tu, _ := spec.NewUserID(target.id, true)
+	k := target.srv.Current()
+	in := gmsl.HandleInviteInput{RoomID: roomID, RoomVersion: version, InvitedUser: *tu, InvitedSenderID: spec.SenderID(target.id), InviteEvent: ev, StrippedState: stripped,
+		KeyID: k.ID, PrivateKey: k.Priv, Verifier: verifier, RoomQuerier: q, MembershipQuerier: q, StateQuerier: q, UserIDQuerier: uidFor}
+	var got gmsl.PDU
+	var err error
+	if guard(r, "HandleInvite", func() { got, err = gmsl.HandleInvite(context.Background(), in) }) {
+		return nil, errors.New("aborted")
+	}
+	accepted := err == nil && got != nil
+	mem, _ := built.Membership()
+	gInvite := built.Type() == spec.MRoomMember && built.StateKey() != nil && mem == "invite"
+	gTarget := built.StateKey() != nil && *built.StateKey() == target.id
+	gRoom := built.RoomID().String() == roomID.String()
+	sender, uerr := spec.NewUserID(string(built.SenderID()), true)
+	sub := rm.parse(submitted)
+	gSigned := !sigFaulted && uerr == nil && sub != nil && c.validlySignedBy(sub, sender.Domain()) && c.ver.Fail == nil
+	gNotJoined := !(q.known && !q.knownErr && q.mem == "join" && !q.memErr)
+	_, verr := gmsl.GetRoomVersion(version)
+	gVersion := verr == nil
+	r.State(fmt.Sprintf("invite %s accepted=%v err=%s", c.sig(), accepted, errText(err)))
+	r.Logf("  HandleInvite -> accepted=%v err=%v ; guards invite=%v target=%v room=%v signed=%v not_joined=%v version=%v", accepted, errText(err), gInvite, gTarget, gRoom, gSigned, gNotJoined, gVersion)
+	if accepted {
+		r.Probe("invite_accepted")
+		if built.Type() != spec.MRoomMember || mem != "invite" {
+			what := "membership:" + mem
+			if built.Type() != spec.MRoomMember {
+				what = "type:" + built.Type()
+			}
+			r.Violate("C15", "invite_accepts_non_invite", what, "HandleInvite accepted and counter-signed an event that is not an invite (type %s, membership %q)", built.Type(), mem)
+		}
+		r.Check(gRoom, "C15", "invite_room_mismatch", c.sig(), "HandleInvite accepted an event of room %s for request room %s", built.RoomID().String(), roomID.String())
+		r.Check(gSigned, "C15", "invite_unsigned", c.sig(), "HandleInvite accepted an invite that the sender's server has not validly signed")
+		r.Check(gNotJoined, "C15", "invite_already_joined", c.sig(), "HandleInvite accepted an invite for a user already joined to a known room")
+		r.Check(gVersion, "C15", "invite_unknown_version", c.sig(), "HandleInvite accepted an invite for unsupported room version %s", version)
+		if !gTarget {
+			r.Probe("invite_accepted_with_state_key_other_than_invited_user")
+		}
+		c.checkCounterSigned("invite", got, submitted, tu.Domain())
+		return got, err
+	}
+	r.Probe("invite_refused")
+	if gInvite && gTarget && gRoom && gSigned && gNotJoined && gVersion && len(c.faults) == 0 {
+		r.Violate("C15", "invite_spurious_refusal", c.sig(), "HandleInvite refused although every guard holds and no fault was injected: %v", err)
+	}
+	return got, err
+}
+
+// opInviteV3: the pseudo-ID invite handler is only taken through its request
+// checks (the pseudo-ID room version itself is not modelled): a room ID that
+// differs from the request's, or an unsupported room version, must be refused.
+func (c *c15) opInviteV3() {
+	r, t, rm := c.r, c.t, c.rm
+	tu, _ := spec.NewUserID(c.ju.id, true)
+	rid, _ := spec.NewRoomID(rm.roomID)
+	content, _ := json.Marshal(map[string]any{"membership": "invite"})
+	k := rm.J().Current()
+	q := &inviteQ{c: c}
+	in := gmsl.HandleInviteV3Input{HandleInviteInput: gmsl.HandleInviteInput{RoomID: *rid, RoomVersion: rm.ver, InvitedUser: *tu, InvitedSenderID: spec.SenderID(c.ju.id), KeyID: k.ID, PrivateKey: k.Priv,
+		Verifier: c.ver, RoomQuerier: q, MembershipQuerier: q, StateQuerier: q, UserIDQuerier: uidFor},
+		InviteProtoEvent: gmsl.ProtoEvent{SenderID: rm.users[0].id, RoomID: rm.roomID, Type: spec.MRoomMember, StateKey: world.Str(c.ju.id), Content: content, PrevEvents: []string{rm.tip.id}, AuthEvents: []string{}, Depth: rm.tip.ev.Depth() + 1},
+		GetOrCreateSenderID: func(ctx context.Context, userID spec.UserID, roomID spec.RoomID, roomVersion string) (spec.SenderID, ed25519.PrivateKey, error) {
+			return spec.SenderID(userID.String()), k.Priv, nil
+		}}
+	kind := "path_room_mismatch"
+	if t.Bool() {
+		kind = "unsupported_version"
+		in.RoomVersion = "99.unknown"
+	} else {
+		in.InviteProtoEvent.RoomID = "!elsewhere:" + string(rm.R().Name)
+	}
+	r.Logf("op invite_v3 %s", c.ju.id)
+	c.fault(kind)
+	var got gmsl.PDU
+	var err error
+	if guard(r, "HandleInviteV3", func() { got, err = gmsl.HandleInviteV3(context.Background(), in) }) {
+		return
+	}
+	r.Logf("  HandleInviteV3 -> accepted=%v err=%v", err == nil && got != nil, errText(err))
+	r.Check(err != nil, "C15", "invitev3_accepts_bad_request", kind, "HandleInviteV3 accepted a request with %s", kind)
+}
+
+// ---- PerformJoin against the resident ----------------------------------------------------------------
+
+type joinClient struct {
+	c          *c15
+	tplFault   string
+	sjFault    string
+	respFaults bool
+	answer     *answer
+	sentJoin   gmsl.PDU
+	mjErr      error
+	sjErr      error
+	honest     bool
+	createLost bool
+}
+
+func (jc *joinClient) MakeJoin(ctx context.Context, origin, s spec.ServerName, roomID, userID string) (gmsl.MakeJoinResponse, error) {
+	c, rm := jc.c, jc.c.rm
+	c.r.Logf("  fed make_join(%s, %s) at %s", roomID, userID, s)
+	uid, err := spec.NewUserID(userID, true)
+	if err != nil {
+		return nil, err
+	}
+	rid, err := spec.NewRoomID(roomID)
+	if err != nil {
+		return nil, err
+	}
+	q := c.newQuerier()
+	tb := &templateBuilder{c: c}
+	resp, err := c.callMakeJoin(c.honestMakeJoin(q, tb, origin, uid, rid), q, tb)
+	if err != nil {
+		jc.mjErr = err
+		return nil, err
+	}
+	tpl := resp.JoinTemplateEvent
+	ver := resp.RoomVersion
+	switch jc.tplFault {
+	case "template_wrong_type":
+		tpl.Type = "m.room.power_levels"
+	case "template_wrong_room":
+		tpl.RoomID = "!elsewhere:" + string(rm.R().Name)
+	case "template_redacts":
+		tpl.Redacts = rm.order[0]
+	case "template_unknown_version":
+		ver = "99.unknown"
+	case "template_other_sender":
+		tpl.SenderID = rm.users[0].id
+		tpl.StateKey = world.Str(rm.users[0].id)
+	}
+	b, err := json.Marshal(map[string]any{"event": tpl, "room_version": ver})
+	if err != nil {
+		return nil, err
+	}
+	var out fclient.RespMakeJoin
+	if err := json.Unmarshal(b, &out); err != nil {
+		return nil, err
+	}
+	return &out, nil
+}
+
+func (jc *joinClient) SendJoin(ctx context.Context, origin, s spec.ServerName, event gmsl.PDU) (gmsl.SendJoinResponse, error) {
+	c, rm, t := jc.c, jc.c.rm, jc.c.t
+	jc.sentJoin = event
+	c.r.Logf("  fed send_join(%s) at %s", describe(event), s)
+	q := c.newQuerier()
+	k := rm.R().Current()
+	in := gmsl.HandleSendJoinInput{Context: context.Background(), RoomID: event.RoomID(), EventID: event.EventID(), JoinEvent: append([]byte{}, event.JSON()...), RoomVersion: rm.ver, RequestOrigin: origin,
+		LocalServerName: rm.R().Name, KeyID: k.ID, PrivateKey: k.Priv, Verifier: c.ver, MembershipQuerier: q, UserIDQuerier: uidFor,
+		StoreSenderIDFromPublicID: func(ctx context.Context, senderID spec.SenderID, userID string, id spec.RoomID) error { return nil }}
+	if event.RoomID().String() != rm.roomID {
+		jc.sjErr = spec.NotFound("unknown room")
+		return nil, jc.sjErr
+	}
+	resp, err := c.callSendJoin(in, event, append([]byte{}, event.JSON()...), q, false)
+	if err != nil {
+		jc.sjErr = err
+		return nil, err
+	}
+	state := rm.pdus(rm.tip.after)
+	// an honest resident also runs the auth rules on the join before accepting it
+	if jc.honest && allowedBy(event, state) != nil {
+		jc.sjErr = spec.Forbidden("join not allowed by the room state")
+		return nil, jc.sjErr
+	}
+	a := c.c14.newAnswer(state, rm.authChainOf(append(append([]gmsl.PDU{}, state...), event)))
+	c.c14.prov.reset()
+	if jc.respFaults {
+		c.c14.applyFaults(a, true)
+		if a.nfaults > 0 {
+			c.faults = append(c.faults, "send_join_state_faults")
+			c.r.Nontriv = true
+		}
+	}
+	out := &fclient.RespSendJoin{Origin: rm.R().Name, Event: append([]byte{}, resp.JoinEvent.JSON()...)}
+	switch jc.sjFault {
+	case "create_missing":
+		create := rm.order[0]
+		a.removeAll(create)
+		c.c14.pickMissingBehaviour(create)
+	case "create_only_in_state":
+		var keep []*entry
+		for _, e := range a.auth {
+			if e.ev == nil || e.ev.Type() != spec.MRoomCreate {
+				keep = append(keep, e)
+			}
+		}
+		a.auth = keep
+	case "create_unknown_version":
+		p := world.Proto{RoomID: rm.roomID, Sender: rm.users[0].id, Type: spec.MRoomCreate, StateKey: world.Str(""), Content: map[string]any{"room_version": "99.unknown", "creator": rm.users[0].id}, Depth: 1}
+		if rm.impl.DomainlessRoomIDs() {
+			p.RoomID = ""
+		}
+		if ne, err := world.Build(rm.impl, p, rm.nodes[rm.order[0]].ev.OriginServerTS().Time(), rm.R().Name, rm.R().Current()); err == nil {
+			a.replaceAll(rm.order[0], append([]byte{}, ne.JSON()...), ne, "create_unknown_version")
+			c.c14.bad[ne.EventID()] = ne
+			c.c14.pickMissingBehaviour(rm.order[0])
+		}
+	case "remote_event_not_a_join":
+		if lv, err := rm.buildWith(c.ju, []string{rm.tip.id}, rm.tip.ev.Depth()+1, state, spec.MRoomMember, world.Str(c.ju.id), map[string]any{"membership": "leave"}); err == nil {
+			out.Event = lv.JSON()
+		}
+	case "remote_event_other_user":
+		if o, err := rm.buildWith(rm.users[0], []string{rm.tip.id}, rm.tip.ev.Depth()+1, state, spec.MRoomMember, world.Str(rm.users[0].id), map[string]any{"membership": "join"}); err == nil {
+			out.Event = o.JSON()
+		}
+	case "remote_event_garbage":
+		out.Event = []byte(sim.Pick(t, malformedSamples[1:]))
+	case "remote_event_absent":
+		out.Event = nil
+	}
+	jc.answer = a
+	out.StateEvents, out.AuthEvents = rawList(a.state), rawList(a.auth)
+	return out, nil
+}
+
+func (c *c15) opPerformJoin() {
+	r, t, rm := c.r, c.t, c.rm
+	jc := &joinClient{c: c, honest: true}
+	r.Logf("op perform_join %s via %s", c.ju.id, rm.R().Name)
+	nf := t.Weighted([]int{4, 4, 2})
+	for i := 0; i < nf; i++ {
+		k := []string{"template_wrong_type", "template_wrong_room", "template_redacts", "template_unknown_version", "template_other_sender",
+			"create_missing", "create_only_in_state", "create_unknown_version", "remote_event_not_a_join", "remote_event_other_user", "remote_event_garbage", "remote_event_absent",
+			"send_join_state_faults", "resident_skips_auth"}[t.Weighted([]int{2, 2, 2, 2, 1, 4, 2, 3, 2, 2, 1, 1, 6, 2})]
+		switch {
+		case strings.HasPrefix(k, "template_"):
+			jc.tplFault = k
+		case k == "send_join_state_faults":
+			jc.respFaults = true
+			continue // counted when a fault is really applied
+		case k == "resident_skips_auth":
+			jc.honest = false
+		default:
+			jc.sjFault = k
+		}
+		c.fault(k)
+	}
+	uid, _ := spec.NewUserID(c.ju.id, true)
+	rid, _ := spec.NewRoomID(rm.roomID)
+	k := rm.J().Current()
+	in := gmsl.PerformJoinInput{UserID: uid, RoomID: rid, ServerName: rm.R().Name, Content: map[string]interface{}{}, PrivateKey: k.Priv, KeyID: k.ID,
+		KeyRing: &gmsl.KeyRing{KeyDatabase: c.db}, EventProvider: c.c14.prov.fn, UserIDQuerier: uidFor,
+		GetOrCreateSenderID: func(ctx context.Context, userID spec.UserID, roomID spec.RoomID, roomVersion string) (spec.SenderID, ed25519.PrivateKey, error) {
+			return spec.SenderID(userID.String()), k.Priv, nil
+		},
+		StoreSenderIDFromPublicID: func(ctx context.Context, senderID spec.SenderID, userID string, id spec.RoomID) error { return nil }}
+	if t.Chance(300) {
+		in.Unsigned = map[string]interface{}{"org.example.note": "x"}
+	}
+	var res *gmsl.PerformJoinResponse
+	var ferr *gmsl.FederationError
+	if guard(r, "PerformJoin", func() { res, ferr = gmsl.PerformJoin(context.Background(), jc, in) }) {
+		return
+	}
+	ok := ferr == nil && res != nil
+	r.Logf("  PerformJoin -> ok=%v err=%v", ok, ferr != nil)
+	r.State(fmt.Sprintf("perform_join %s ok=%v", c.sig(), ok))
+	if c.c14.prov.offContract {
+		r.Probe("off_contract_provider_answer_used")
+		return
+	}
+	if !ok {
+		r.Probe("perform_join_failed")
+		if len(c.faults) == 0 && jc.mjErr == nil && jc.sjErr == nil {
+			r.Violate("C15", "performjoin_spurious_failure", c.sig(), "PerformJoin failed against an honest resident that accepted make_join and send_join: %v", ferr)
+		}
+		return
+	}
+	r.Probe("perform_join_succeeded")
+	a := jc.answer
+	if a == nil || res.JoinEvent == nil || res.StateSnapshot == nil {
+		r.Violate("C15", "performjoin_without_send_join", c.sig(), "PerformJoin returned a join without a send_join response (answer=%v)", a != nil)
+	}
+	// (a) the join it returns is a join of the user in the room, signed by J
+	je := res.JoinEvent
+	if p := rm.parse(je.JSON()); p != nil {
+		if strings.Join(p.AuthEventIDs(), ",") != strings.Join(je.AuthEventIDs(), ",") {
+			r.Probe("returned_pdu_accessors_disagree_with_its_json")
+		}
+		je = p
+	}
+	mem, _ := je.Membership()
+	r.Check(je.Type() == spec.MRoomMember && mem == "join" && je.StateKey() != nil && *je.StateKey() == c.ju.id && je.RoomID().String() == rm.roomID, "C15", "performjoin_returns_non_join", c.sig(),
+		"PerformJoin returned %s in room %s, not a join of %s in %s", describe(je), je.RoomID().String(), c.ju.id, rm.roomID)
+	// (b) the remote's state contains a create event of a known room version
+	createOK := false
+	for _, e := range a.auth {
+		if e.ev != nil && e.ev.Type() == spec.MRoomCreate && e.ev.StateKey() != nil && *e.ev.StateKey() == "" {
+			var cc struct {
+				V *string `json:"room_version"`
+			}
+			_ = json.Unmarshal(e.ev.Content(), &cc)
+			v := "1"
+			if cc.V != nil {
+				v = *cc.V
+			}
+			if _, err := gmsl.GetRoomVersion(gmsl.RoomVersion(v)); err == nil {
+				createOK = true
+			}
+		}
+	}
+	r.Check(createOK, "C15", "performjoin_without_create_event", c.sig(), "PerformJoin returned a join although the remote's auth chain has no create event of a known room version")
+	// (c) the state passes the federation-response checks (C14's model)
+	model := c.c14.modelState(a, false)
+	if !model.contract {
+		r.Probe("off_contract_provider_answer_used")
+		return
+	}
+	if model.err != "" {
+		r.Violate("C15", "performjoin_accepts_failing_state", model.err, "PerformJoin returned a join although the send_join state must fail as a whole (%s)", model.err)
+	}
+	byID := map[string]gmsl.PDU{}
+	var st []gmsl.PDU
+	seen := map[string]bool{}
+	for _, e := range a.all() {
+		if e.ev != nil && model.dropped[e.id()] == "" {
+			byID[e.id()] = e.ev
+		}
+	}
+	for _, e := range a.state {
+		if e.ev != nil && model.dropped[e.id()] == "" && !seen[e.id()] {
+			seen[e.id()] = true
+			st = append(st, e.ev)
+		}
+	}
+	contract := true
+	auth := c.c14.authSet(je, byID, map[string]bool{}, &contract)
+	if !contract {
+		r.Probe("off_contract_provider_answer_used")
+		return
+	}
+	if e := allowedBy(je, auth); e != nil {
+		r.Violate("C15", "performjoin_accepts_failing_state", "join_not_allowed_by_auth_events", "PerformJoin returned a join that is not allowed by its auth events as they survive the response checks: %v (auth events %s of %s; dropped %d)", e, shortIDs(pduIDs(auth)), shortIDs(je.AuthEventIDs()), len(model.dropped))
+	}
+	if allowedBy(je, st) != nil {
+		r.Violate("C15", "performjoin_accepts_failing_state", "join_not_allowed_by_state", "PerformJoin returned a join that is not allowed by the returned state")
+	}
+	gotA := c.c14.idsOf(res.StateSnapshot.GetAuthEvents())
+	gotS := c.c14.idsOf(res.StateSnapshot.GetStateEvents())
+	if strings.Join(gotA, ",") != strings.Join(model.auth, ",") || strings.Join(gotS, ",") != strings.Join(model.state, ",") {
+		r.Violate("C15", "performjoin_state_differs", a.neighbourFault(), "PerformJoin's state snapshot is not what the response checks admit: auth got %s want %s ; state got %s want %s", shortIDs(gotA), shortIDs(model.auth), shortIDs(gotS), shortIDs(model.state))
+	}
+	r.Check(c.validlySignedBy(je, rm.J().Name), "C15", "performjoin_join_unsigned", c.sig(), "PerformJoin returned a join that its own server has not validly signed")
+}
+
+// ---- PerformInvite -> HandleInvite ---------------------------------------------------------------------
+
+type inviteClient struct {
+	c        *c15
+	q        *inviteQ
+	verifier gmsl.JSONVerifier
+	called   bool
+}
+
+func (ic *inviteClient) SendInvite(ctx context.Context, event gmsl.PDU, stripped []gmsl.InviteStrippedState) (gmsl.PDU, error) {
+	ic.called = true
+	c := ic.c
+	c.r.Logf("  fed invite(%s)", describe(event))
+	return c.callInvite(append([]byte{}, event.JSON()...), event, event.RoomID(), c.rm.ver, c.ju, ic.q, ic.verifier, stripped, false)
+}
+
+func (ic *inviteClient) SendInviteV3(ctx context.Context, event gmsl.ProtoEvent, userID spec.UserID, roomVersion gmsl.RoomVersion, stripped []gmsl.InviteStrippedState) (gmsl.PDU, error) {
+	return nil, errors.New("invite v3 not supported by this resident")
+}
+
+func (c *c15) opPerformInvite() {
+	r, t, rm := c.r, c.t, c.rm
+	inviter := sim.Pick(t, rm.users[:2])
+	q := &inviteQ{c: c, known: t.Chance(300), mem: rm.membership(rm.tip.after, c.ju.id)}
+	if q.mem == "join" {
+		q.known = true
+	}
+	verifier, _ := c.pickVerifier()
+	ic := &inviteClient{c: c, q: q, verifier: verifier}
+	iu, _ := spec.NewUserID(inviter.id, true)
+	tu, _ := spec.NewUserID(c.ju.id, true)
+	rid, _ := spec.NewRoomID(rm.roomID)
+	k := rm.R().Current()
+	content, _ := json.Marshal(map[string]any{"membership": "invite"})
+	rq := &inviteQ{c: c, known: true, mem: rm.membership(rm.tip.after, c.ju.id)}
+	in := gmsl.PerformInviteInput{RoomID: *rid, RoomVersion: rm.ver, Inviter: *iu, Invitee: *tu, IsTargetLocal: false,
+		EventTemplate: gmsl.ProtoEvent{SenderID: inviter.id, RoomID: rm.roomID, Type: spec.MRoomMember, StateKey: world.Str(c.ju.id), Content: content},
+		KeyID:         k.ID, SigningKey: k.Priv, EventTime: timeNow(), MembershipQuerier: rq, StateQuerier: rq, UserIDQuerier: uidFor,
+		SenderIDQuerier: func(roomID spec.RoomID, userID spec.UserID) (*spec.SenderID, error) {
+			s := spec.SenderID(userID.String())
+			return &s, nil
+		},
+		SenderIDCreator: func(ctx context.Context, userID spec.UserID, roomID spec.RoomID, roomVersion string) (spec.SenderID, ed25519.PrivateKey, error) {
+			return spec.SenderID(userID.String()), k.Priv, nil
+		},
+		EventQuerier: func(ctx context.Context, roomID spec.RoomID, needed []gmsl.StateKeyTuple) (gmsl.LatestEvents, error) {
+			var evs []gmsl.PDU
+			for _, n := range needed {
+				if id, ok := rm.tip.after[skey{n.EventType, n.StateKey}]; ok {
+					evs = append(evs, rm.nodes[id].ev)
+				}
+			}
+			return gmsl.LatestEvents{RoomExists: true, StateEvents: evs, PrevEventIDs: []string{rm.tip.id}, Depth: rm.tip.ev.Depth() + 1}, nil
+		},
+		StoreSenderIDFromPublicID: func(ctx context.Context, senderID spec.SenderID, userID string, id spec.RoomID) error { return nil }}
+	if t.Chance(600) {
+		in.StrippedState = c.strippedState()
+	}
+	r.Logf("op perform_invite %s invites %s (membership %q)", inviter.id, c.ju.id, q.mem)
+	var got gmsl.PDU
+	var err error
+	if guard(r, "PerformInvite", func() { got, err = gmsl.PerformInvite(context.Background(), in, ic) }) {
+		return
+	}
+	r.Logf("  PerformInvite -> ok=%v err=%v (remote asked=%v)", err == nil && got != nil, errText(err), ic.called)
+	if err == nil && got != nil {
+		r.Probe("perform_invite_succeeded")
+		r.Check(ic.called, "C15", "performinvite_without_remote", c.sig(), "PerformInvite returned an invite for a remote user without asking the remote server")
+		r.Check(c.validlySignedBy(got, rm.J().Name) && c.validlySignedBy(got, rm.R().Name), "C15", "performinvite_signatures", c.sig(), "the invite PerformInvite returned is not validly signed by both servers")
+	} else {
+		r.Probe("perform_invite_failed")
+	}
+}
+
+var _ = fmt.Sprintf
